@@ -136,6 +136,7 @@ def rule_r1(repo, run, helpers):
     R = run.rule("C10.R1", "every buffer access of the embedded C helpers is proved in bounds from the "
                            "documented contracts")
     total_sites = 0
+    nscans = [0]
     for lang in ("c", "c++"):
         tu, present = build_tu(helpers, lang)
         docs = cbounds.clang_ast(tu, lang, "Shroud")
@@ -146,6 +147,19 @@ def rule_r1(repo, run, helpers):
                 if fd is None:
                     raise AnalysisError("C10.R1: function %s of helper %s not found in the %s source"
                                         % (fname, key, lang))
+                # trailing-blank scans must look at every position, index 0 included: a descending scan ends
+                # (all blanks) with i == -1 so that the trimmed length i + 1 is 0
+                for sc in cbounds.blank_scans(fd):
+                    nscans[0] += 1
+                    if sc["bound"] is None:
+                        run.unmodelled_site(R, "%s[%s]" % (fname, lang), "blank scan with a non-literal bound")
+                        continue
+                    lim = sc["bound"] if sc["op"] == ">" else sc["bound"] - 1 if sc["op"] == ">=" else None
+                    run.check(R, "whelpers.CHelpers[%s].%s[%s]:blank-scan" % (key, fname, lang), lim == -1,
+                              "the trailing-blank scan `%s %s %s` stops before index 0: an all-blank value keeps "
+                              "one blank (trimmed length 1 instead of 0)" % (sc["ivar"], sc["op"], sc["bound"]),
+                              "shroud/whelpers.py helper %s (%s source)" % (key, lang),
+                              sample=dict(helper=key, scan="%s %s %s" % (sc["ivar"], sc["op"], sc["bound"])))
                 it = cbounds.Interp(fname, fd, CONTRACTS.get(fname, {}), CALLEE_POST).run()
                 sites = set(o.site + "/" + o.kind for o in it.obligations)
                 total_sites += len(sites)
@@ -166,6 +180,8 @@ def rule_r1(repo, run, helpers):
                               sample=dict(helper=key, function=fname, lang=lang, kind=kind,
                                           obligation=[o.text for o in obs][:2], paths=len(obs)))
     run.floor(R, "buffer access sites in helpers (both languages)", total_sites, MIN_ACCESS_SITES)
+    if nscans[0] < 2:
+        raise AnalysisError("C10.R1: trailing-blank scan of ShroudLenTrim not found (%d)" % nscans[0])
     # no NUL is written into a Fortran destination
     for key in ("ShroudStrCopy", "ShroudStrBlankFill"):
         h = helpers.c[key]
@@ -333,6 +349,12 @@ def rule_r2(repo, run, table):
                                 probs.append("ntrim must be len_trim of the argument or -1, got %r" % args[2])
                             if t[1] == ("Trim", x) and t[2][0] == "Sentinel":
                                 pass     # trims again inside: still <= nsrc
+                            parts = name.split("_")
+                            if ("inout" in parts or "out" in parts) and t[1] != ("Len", x):
+                                probs.append("the callee may write up to the declared length of an intent(%s) argument: "
+                                             "the temporary must be allocated with len (nsrc), got %r - the library "
+                                             "writes past the end of a buffer of len_trim+1 bytes"
+                                             % ("inout" if "inout" in parts else "out", args[1]))
                     elif base == "ShroudLenTrim":
                         if t[0][0] != "Buf" or t[1] != ("Len", t[0][1]):
                             probs.append("ShroudLenTrim(buffer, len(buffer)) expected, got %r" % (args,))
